@@ -1,6 +1,16 @@
 #!/usr/bin/env python3
 import json, sys
 pid, wt = sys.argv[1], sys.argv[2]
+import glob, os
+avoid = []
+for d in sorted(glob.glob(f"/verif/seeded/{pid}-*")):
+    try:
+        files = [l.split()[2][2:] for l in open(os.path.join(d, "patch.diff")) if l.startswith("diff --git")]
+        first = next((l.strip().lstrip("-* ") for l in open(os.path.join(d, "notes.md")) if l.strip() and not l.startswith("#")), "")
+        avoid.append(f"  - ({', '.join(files)}) {first[:300]}")
+    except Exception:
+        pass
+avoid_text = ("ALREADY TAKEN -- earlier volunteers seeded the following; do something DIFFERENT (another function, preferably another file, another mechanism):\n" + "\n".join(avoid) + "\n\n") if avoid else ""
 for l in open('/verif/properties.jsonl'):
     p = json.loads(l)
     if p['id'] == pid:
@@ -20,7 +30,7 @@ Do not edit the tests. Do not edit the .pyx files' cdef kernels (they cannot be 
 
 Then write a demonstration program {wt}/_out/demo.py that exits 0 when the property holds and exits 1 (printing what went wrong) when it is violated: it must FAIL with your change and PASS without it (verify both: save your change with `git diff -- smpl_extract > _out/patch.diff`, undo it with `git apply -R _out/patch.diff`, run the demo, re-apply with `git apply _out/patch.diff`. NEVER use `git stash`: the stash is shared with other worktrees of this repository and other people are working in them right now. Before you finish, check that `git status` shows only the file(s) you meant to change). The demo must import the worktree's code: start it with `import sys; sys.path.insert(0, "{wt}")`. There are no sample disc images available: build any input bytes you need inside the demo (read the parsers to learn the formats), or drive the relevant classes/functions directly.
 
-Deliverables (all under {wt}/_out/):
+{avoid_text}Deliverables (all under {wt}/_out/):
   patch.diff  -- output of `cd {wt} && git diff -- smpl_extract` (your change only)
   demo.py     -- as above
   notes.md    -- 5-10 lines: what you changed, why it breaks the property, what is needed for it to manifest, and the exact commands you ran with their results (tests with the change; demo with and without the change).
